@@ -939,3 +939,175 @@ class NfContainer(Job):
 
 JOBS.setdefault("C03", [])
 JOBS["C03"] += [NfContainer("take_by_ids"), NfContainer("put"), NfContainer("take_all")]
+
+
+# =====================================================================================================
+# C12: TrackedSubstateValue -- the per-substate read / write state machine of the transaction state cache
+# =====================================================================================================
+def _isv(t):
+    return StructV("IndexedScryptoValue", [IntV(t, "u64")])
+
+
+def _rs(t):
+    return StructV("RuntimeSubstate", [_isv(t)])
+
+
+def _tsv(d):
+    wr = lambda: EnumV("Write", d["wk"], {0: [_rs(d["a"])], 1: []})          # noqa: E731
+    return EnumV("TrackedSubstateValue", d["tv"], {
+        0: [_rs(d["a"])], 1: [EnumV("ReadOnly", d["ro"], {0: [], 1: [_rs(d["a"])]})], 2: [_isv(d["e"]), wr()],
+        3: [_rs(d["a"])], 4: [wr()], 5: []})
+
+
+def _val_of(v):
+    """u64 term inside IndexedScryptoValue / RuntimeSubstate (0 when the payload is absent on this path)"""
+    while v is not None and v.kind == "struct" and v.fields:
+        v = v.fields[0]
+    return v.term if v is not None and v.kind == "int" else z3.IntVal(0)
+
+
+def _payload(e, k, i=0):
+    vs = e.variants.get(k)
+    return vs[i] if vs and len(vs) > i and vs[i].kind != "undef" else None
+
+
+def _write_obs(w):
+    if w is None or w.kind != "enum":
+        return z3.BoolVal(False), z3.IntVal(0)
+    return w.discr == 0, _val_of(_payload(w, 0))
+
+
+def tsv_observe(s):
+    """(cur_some, cur_val, rev_some, rev_val): what get() shows, and what revert_writes() would restore"""
+    tv = s.discr
+    ro = _payload(s, 1)
+    ro_ex = (ro.discr == 1) if ro is not None and ro.kind == "enum" else z3.BoolVal(False)
+    ro_val = _val_of(_payload(ro, 1)) if ro is not None and ro.kind == "enum" else z3.IntVal(0)
+    w2s, w2v = _write_obs(_payload(s, 2, 1))
+    w4s, w4v = _write_obs(_payload(s, 4))
+    cur_some = z3.If(tv == 0, True, z3.If(tv == 1, ro_ex, z3.If(tv == 2, w2s, z3.If(tv == 3, True, z3.If(tv == 4, w4s, False)))))
+    cur_val = z3.If(tv == 0, _val_of(_payload(s, 0)), z3.If(tv == 1, ro_val, z3.If(tv == 2, w2v, z3.If(
+        tv == 3, _val_of(_payload(s, 3)), z3.If(tv == 4, w4v, 0)))))
+    rev_some = z3.If(tv == 1, ro_ex, tv == 2)
+    rev_val = z3.If(tv == 1, ro_val, z3.If(tv == 2, _val_of(_payload(s, 2, 0)), 0))
+    return cur_some, z3.If(cur_some, cur_val, 0), rev_some, z3.If(rev_some, rev_val, 0)
+
+
+class TrackedValueStep(Job):
+    crate = "radix-engine"
+    env_overrides = [(re.compile(r"^<IndexedScryptoValue as Clone>::clone$"), _models.m_clone)]
+
+    def __init__(self, op):
+        self.op = op
+        self.name = "c12m::tracked_substate_value_" + op
+        self.what = {
+            "set": "TrackedSubstateValue::set from every state: the value is read back afterwards and the knowledge of what "
+                   "the database held (restored by a revert) is kept",
+            "take": "TrackedSubstateValue::take from every state: returns exactly what a read showed, a read shows nothing "
+                    "afterwards, the database knowledge is kept",
+            "revert_writes": "TrackedSubstateValue::revert_writes from every state: a read shows what the database held "
+                             "(or nothing when that was never read: the entry becomes garbage)",
+            "get": "TrackedSubstateValue::get from every state: shows the latest write, else the database value that was "
+                   "read, else nothing",
+        }[op]
+        self.cover_labels = ["read-exist-and-write state", "write-only delete state",
+                             "nothing visible afterwards" if op == "take" else "value visible afterwards"]
+
+    def locate(self, prog):
+        return find_function(prog, "track/state_updates.rs", self.op,
+                             param_types={"set": ["&mut TrackedSubstateValue", "IndexedScryptoValue"],
+                                          "take": ["&mut TrackedSubstateValue"], "revert_writes": ["&mut TrackedSubstateValue"],
+                                          "get": ["&TrackedSubstateValue"]}[self.op])
+
+    def inputs(self):
+        d = {k: z3.Int(k) for k in ("tv", "ro", "wk", "a", "e", "v")}
+        return d, [d["tv"] >= 0, d["tv"] <= 5, d["ro"] >= 0, d["ro"] <= 1, d["wk"] >= 0, d["wk"] <= 1,
+                   d["a"] >= 1, d["a"] <= 1000, d["e"] >= 1, d["e"] <= 1000, d["v"] >= 1, d["v"] <= 1000]
+
+    def setup_path(self, path, inp):
+        self._d = {k: lit(v) for k, v in inp.items()}
+        path.frames["job"] = {"self": _tsv(self._d)}
+
+    def args(self, inp):
+        me = RefV("&mut TrackedSubstateValue", "job", "self", ())
+        if self.op == "set":
+            return [me, _isv(lit(inp["v"]))]
+        if self.op == "get":
+            return [RefV("&TrackedSubstateValue", "job", "self", ())]
+        return [me]
+
+    def extract_outcome(self, o):
+        cs, cv, rs_, rv = tsv_observe(o.path.frames["job"]["self"])
+        d = {"cs": cs, "cv": cv, "rs": rs_, "rv": rv}
+        if self.op in ("take", "get"):
+            r = o.value
+            d["ret_s"] = r.discr == 1
+            p = _payload(r, 1)
+            if p is not None and p.kind == "ref":
+                p = _models.deref(None, o.path, p) if hasattr(p, "target") else self._deref(o, p)
+            d["ret_v"] = z3.If(r.discr == 1, _val_of(p), 0)
+        return d
+
+    @staticmethod
+    def _deref(o, ref):
+        # a reference into the job frame: read it through a throw-away interpreter-free walk
+        v = o.path.frames[ref.fid][ref.local]
+        projs = list(ref.projs)
+        while projs:
+            p = projs.pop(0)
+            if p[0] == "field":
+                v = v.fields[p[1]]
+            elif p[0] == "downcast":
+                fp = projs.pop(0)
+                idx = {"New": 0, "ReadOnly": 1, "ReadExistAndWrite": 2, "ReadNonExistAndWrite": 3, "WriteOnly": 4,
+                       "Existent": 1, "Update": 0, "Some": 1}[p[1]]
+                v = v.variants[idx][fp[1]]
+        return v
+
+    def native(self, nat, vals):
+        op = {"set": "set", "take": "take", "revert_writes": "revert", "get": "get"}[self.op]
+        t = nat.call("tsv", vals["tv"], vals["ro"], vals["wk"], vals["a"], vals["e"], op, vals["v"]).split()
+        if t[0] == "panic":
+            return {"panic": True, "msg": " ".join(t[1:])}
+
+        def o(x):
+            return (False, 0) if x in ("none", "-") else (True, int(x))
+        r = {"panic": False}
+        (r["cs"], r["cv"]), (r["rs"], r["rv"]) = o(t[2]), o(t[3])
+        if self.op in ("take", "get"):
+            r["ret_s"], r["ret_v"] = o(t[1])
+        return r
+
+    def post(self, inp, res):
+        d = {k: lit(v) for k, v in inp.items()}
+        r = {k: lit(v) for k, v in res.items() if not isinstance(v, str)}
+        cs0, cv0, rs0, rv0 = tsv_observe(_tsv(d))
+        keep_rev = ("the database knowledge (what a revert restores) is unchanged", z3.And(r["rs"] == rs0, r["rv"] == rv0))
+        if self.op == "set":
+            return [("the written value is read back", z3.And(r["cs"], r["cv"] == d["v"])), keep_rev]
+        if self.op == "take":
+            return [("take returns exactly what a read showed", z3.And(r["ret_s"] == cs0, r["ret_v"] == cv0)),
+                    ("nothing is visible afterwards", z3.Not(r["cs"])), keep_rev]
+        if self.op == "get":
+            return [("get shows the current value", z3.And(r["ret_s"] == cs0, r["ret_v"] == cv0)),
+                    ("get does not change the state", z3.And(r["cs"] == cs0, r["cv"] == cv0)), keep_rev]
+        return [("after a revert a read shows what the database held, or nothing", z3.And(r["cs"] == rs0, r["cv"] == rv0)), keep_rev]
+
+    def covers(self, inp, res):
+        d = {k: lit(v) for k, v in inp.items()}
+        return [("read-exist-and-write state", d["tv"] == 2), ("write-only delete state", z3.And(d["tv"] == 4, d["wk"] == 1)),
+                ("nothing visible afterwards", z3.Not(lit(res["cs"]))) if self.op == "take" else
+                ("value visible afterwards", lit(res["cs"]))]
+
+    def vectors(self, rng):
+        out = []
+        for tv in range(6):
+            for ro in (0, 1):
+                for wk in (0, 1):
+                    out.append({"tv": tv, "ro": ro, "wk": wk, "a": rng.randrange(1, 500), "e": rng.randrange(500, 1000),
+                                "v": rng.randrange(1, 1000)})
+        return out
+
+
+JOBS.setdefault("C12", [])
+JOBS["C12"] += [TrackedValueStep(op) for op in ("set", "take", "revert_writes", "get")]
